@@ -51,6 +51,10 @@ TReturn == IsEvent("return") /\ Return(Ev.results, Ev.loaded) /\ UNCHANGED exc
 TRaise  == IsEvent("raise") /\ Raise /\ UNCHANGED exc
            /\ Ev.cls = exc.cls /\ Ev.args = exc.args /\ Ev.attributed
            /\ \A k \in DOMAIN Ev.loaded : Ev.loaded[k][2] = den[Ev.loaded[k][1]]
+           (* in-process execution (observed = first component non-empty): the ErrorSnapshot of the failing function,  *)
+           (* reproduce()d directly and after save_to_file / load_from_file, raises this very exception               *)
+           /\ (Ev.repro[1] # "" => Ev.repro = <<exc.cls, exc.args>>)
+           /\ (Ev.repro_loaded[1] # "" => Ev.repro_loaded = <<exc.cls, exc.args>>)
 (* a request the specification calls invalid must be rejected before anything happens *)
 TReject == IsEvent("reject") /\ phase = "idle"
            /\ (~ValidMapRequestF(d, inp, FSet(Ev.F))
